@@ -387,3 +387,30 @@ def r10(ctx):
     if len(cands) < 3:
         raise AnchorMissing('id_to_token of the BPE, byte and vocabulary tokenizers (found %d)' % len(cands))
     ctx.ok(None, '%d id_to_token bodies return table bytes without a text round trip' % n)
+
+
+@rule('C04', 'R-C04-11', 'T2 CHAIN (decoding is verbatim)',
+      'de_tokenize of the BPE, byte and vocabulary tokenizers (and join_tokens / join_parts below it) returns the token bytes / strings joined, '
+      'untouched: no text transformation (text::clean, trim, normalize, case folding, replace) is applied to the decoded text -- decoding the id of '
+      'the token " " must give " ", not ""')
+def r11(ctx):
+    POST = r'text::clean$|unicode::normalize$|str::trim\w*$|str::replace\w*$|str::to_(lower|upper)case$|str::to_ascii_(lower|upper)case$|str::strip_\w+$|' \
+           r'String::truncate$|String::retain$|UnicodeNormalization.*::nfk?[cd]$|str::split_whitespace$|String::pop$|String::remove$'
+    cands = [b for b in ctx.facts.bodies if b.kind != 'Closure' and b.file() == 'src/tokenization.rs' and b.impl_trait and
+             (b.path.endswith('::de_tokenize') and norm_path(b.impl_trait).endswith('Tokenize') or
+              b.path.endswith('::join_tokens') or b.path.endswith('::join_parts')) and
+             'Huggingface' not in str(b.impl_self) and 'Duration' not in str(b.impl_self)]
+    n = 0
+    from rules.common import closures_in
+    for b in cands:
+        for x in [b] + closures_in(ctx, b):
+            ctx.stats['bodies_inspected'].add(x.path)
+            n += 1
+            for t in x.calls(POST):
+                ctx.fail(b, 'decoded-text-transformed|' + norm_path(b.path).rsplit('::', 1)[-1] + '|' + (t.callee_res() or '').rsplit('::', 1)[-1],
+                         '%s of %s passes the decoded text through `%s` (line %d): the result is no longer the tokens joined -- whitespace tokens, case or '
+                         'composed characters of the vocabulary do not survive decoding' % (norm_path(b.path).rsplit('::', 1)[-1], (b.impl_self or '?')[:50],
+                                                                                             (t.callee_res() or '').rsplit('::', 2)[-1], t.span['line']), t.span)
+    if len([b for b in cands if b.path.endswith('::de_tokenize')]) < 3:
+        raise AnchorMissing('de_tokenize of the BPE, byte and vocabulary tokenizers (found %d)' % len(cands))
+    ctx.ok(None, '%d decoder bodies (de_tokenize / join_tokens / join_parts) apply no text transformation' % n)
